@@ -1977,8 +1977,10 @@ func (c *HostClient) connsCleaner() {
 }
 
 func (c *HostClient) CloseConn(cc *clientConn) {
-	c.decConnsCount()
+	// Close first: giving the slot back starts the dial for the next waiter,
+	// and until Close returns this connection is still open.
 	cc.c.Close()
+	c.decConnsCount()
 	releaseClientConn(cc)
 }
 
